@@ -254,20 +254,21 @@ def history_run(which):
     mod = importlib.import_module(FMOD)
     pre = stencil_state(mod)
     if pre:
-        return dict(step="before any use (state of this process)", discrepancies=pre[:3], ran=0)
-    ran = 0
+        return dict(step="before any use (state of this process)", discrepancies=pre[:3], ran=0, raised=[])
+    ran, raised = 0, []
     with warnings.catch_warnings():
         warnings.simplefilter("ignore")
         for desc, thunk in scenarios(which):
             try:
                 thunk()
             except Exception as ex:  # pylint: disable=broad-except
-                desc += f" [raised {type(ex).__name__}]"
+                desc += f" [raised {type(ex).__name__}: {str(ex)[:60]}]"
+                raised.append(desc)
             ran += 1
             bad = stencil_state(mod)
             if bad:
-                return dict(step=desc, discrepancies=bad[:3], ran=ran)
-    return dict(step=None, ran=ran)
+                return dict(step=desc, discrepancies=bad[:3], ran=ran, raised=raised[:3])
+    return dict(step=None, ran=ran, raised=raised)
 
 
 HISTORY_FUNCS = {"finite_diff": (FD, "finite_diff"), "spsa_grad": ("pennylane/gradients/spsa_gradient.py", "spsa_grad"),
@@ -286,7 +287,10 @@ def history_obligation(which):
                            f"after {out['step']}: finite_diff_coeffs(n={d['n']}, approx_order={d['approx_order']}, strategy={d['strategy']!r}) "
                            f"[{d['call_form']} call] returns {d['returned']}, the recomputed stencil is {d['recomputed']}", witness=out,
                            replay=dict(confirmed=True, inputs=out["step"], observed=d["returned"], expected=d["recomputed"]))
-        return Outcome(DISCHARGED, "native-standin", f"{out['ran']} uses, memoised stencils equal the recomputed ones after each", extra=dict(bounded=True))
+        if out["ran"] == 0 or 2 * len(out["raised"]) > out["ran"]:
+            return Outcome(FAULT, "native-standin", f"{len(out['raised'])} of {out['ran']} uses raised: the stand-in exercises nothing: {out['raised'][:2]}")
+        return Outcome(DISCHARGED, "native-standin", f"{out['ran']} uses ({len(out['raised'])} of them raised: {out['raised'][:2]}), memoised stencils equal "
+                       "the recomputed ones after each", extra=dict(bounded=True))
     return Obligation(f"{PID}/{stem}:{qual}/native history: finite_diff_coeffs unchanged by every small use", "bounded", fn, bounded=True, func=(rel, qual),
                       timeout=600, sample="real transform + post-processing, then memoised vs recomputed stencil for n <= 2, approx_order <= 2")
 
@@ -298,7 +302,7 @@ def repeat_obligation():
             bad = stencil_state(mod)
             if bad:
                 d = bad[0]
-                return Outcome(REFUTED, "native-standin", f"call round {rnd + 1}: finite_diff_coeffs({d['n']}, {d['approx_order']}, {d['strategy']!r}) "
+                return Outcome(REFUTED, "native-standin", f"call round {rnd + 1} (this worker process may have run other obligations before): finite_diff_coeffs({d['n']}, {d['approx_order']}, {d['strategy']!r}) "
                                f"[{d['call_form']}] returns {d['returned']}, recomputed {d['recomputed']}", witness=d,
                                replay=dict(confirmed=True, inputs=dict(n=d["n"], approx_order=d["approx_order"], strategy=d["strategy"], round=rnd + 1),
                                            observed=d["returned"], expected=d["recomputed"]))
@@ -503,6 +507,10 @@ def build(tier, seed):
                     continue
                 plan.add(exact_obligation(n, order, strategy))
     # ---- part 3
+    try:          # warm-up only: the forked workers inherit the imported package instead of importing it 16 times; every obligation imports again itself
+        importlib.import_module(FMOD)
+    except Exception:  # pylint: disable=broad-except
+        pass
     notes = frame_obligations(plan)
     plan.add(repeat_obligation())
     for which in HISTORY_FUNCS:
